@@ -1,18 +1,153 @@
-// Command c17 checks property C17 (list sorting, IsSorted and Heap against the ordering relation).
+// C17 (concurrent half): sorting is a property of ONE list. Goroutines that
+// each sort, test or heap-order a list of their own at the same time must get
+// exactly the sequential answers: nothing the implementation keeps between
+// calls (scratch buffers, pools, package state) may leak from one list into
+// another. Every schedule (deviation bounded, with race-directed preemption)
+// of 2-3 threads, each working on a private list.
 package main
 
 import (
-	"flag"
-	"os"
+	"fmt"
+	"sort"
+	"time"
 
-	"verif/checks/c17/seqpart"
-	"verif/rep"
+	"github.com/tychoish/fun/dt"
+	"verif/vs"
+	"verif/vs/runner"
 )
 
+func lt(a, b int) bool { return a < b }
+
+type job struct {
+	kind string // SortQuick | SortMerge | IsSorted | Heap
+	in   []int
+	out  []int
+	ans  bool
+	len  int
+}
+
+func (j *job) run() {
+	switch j.kind {
+	case "SortQuick", "SortMerge":
+		l := &dt.List[int]{}
+		for _, v := range j.in {
+			l.PushBack(v)
+		}
+		if j.kind == "SortQuick" {
+			l.SortQuick(lt)
+		} else {
+			l.SortMerge(lt)
+		}
+		j.len = l.Len()
+		for e := l.Front(); e.Ok() && len(j.out) <= len(j.in)+1; e = e.Next() {
+			j.out = append(j.out, e.Value())
+		}
+		j.ans = l.IsSorted(lt)
+	case "IsSorted":
+		l := &dt.List[int]{}
+		for _, v := range j.in {
+			l.PushBack(v)
+		}
+		j.ans = l.IsSorted(lt)
+		j.len = l.Len()
+	case "Heap":
+		h := &dt.Heap[int]{LT: lt}
+		for _, v := range j.in {
+			h.Push(v)
+		}
+		j.len = h.Len()
+		for i := 0; i <= len(j.in); i++ {
+			v, ok := h.Pop()
+			if !ok {
+				break
+			}
+			j.out = append(j.out, v)
+		}
+	}
+}
+
+func (j *job) verdict() string {
+	want := append([]int(nil), j.in...)
+	sort.Ints(want)
+	switch j.kind {
+	case "SortQuick", "SortMerge", "Heap":
+		if fmt.Sprint(j.out) != fmt.Sprint(want) || j.len != len(j.in) {
+			return fmt.Sprintf("%s of %v gave %v (Len %d), want %v", j.kind, j.in, j.out, j.len, want)
+		}
+		if j.kind != "Heap" && !j.ans {
+			return fmt.Sprintf("IsSorted after %s of %v is false", j.kind, j.in)
+		}
+	case "IsSorted":
+		if j.ans != sort.IntsAreSorted(j.in) {
+			return fmt.Sprintf("IsSorted(%v) = %v", j.in, j.ans)
+		}
+	}
+	return ""
+}
+
+func scenario(kinds []string, inputs [][]int) vs.Scenario {
+	return func() (func(), func(*vs.End) (string, string)) {
+		jobs := make([]*job, len(kinds))
+		for i := range kinds {
+			jobs[i] = &job{kind: kinds[i], in: inputs[i]}
+		}
+		body := func() {
+			fin := make(chan struct{}, len(jobs))
+			for _, j := range jobs {
+				j := j
+				go func() { j.run(); fin <- struct{}{} }()
+			}
+			for range jobs {
+				<-fin
+			}
+		}
+		check := func(e *vs.End) (string, string) {
+			if len(e.Panics) > 0 {
+				return "independent-lists/panic/" + e.Panics[0].Site, e.Panics[0].Value
+			}
+			if e.Status != vs.Clean {
+				return "independent-lists/stuck/" + e.LibSites(), fmt.Sprintf("%+v", e.Stuck)
+			}
+			for _, j := range jobs {
+				if msg := j.verdict(); msg != "" {
+					return "independent-lists/wrong-answer/" + j.kind, msg + fmt.Sprintf(" while %d other goroutine(s) worked on lists of their own", len(jobs)-1)
+				}
+			}
+			return "", ""
+		}
+		return body, check
+	}
+}
+
+func build(tier string) ([]runner.Instance, time.Duration) {
+	bound, budget := 2, 60*time.Second
+	if tier == "thorough" {
+		bound, budget = 3, 10*time.Minute
+	}
+	kinds := []string{"SortQuick", "SortMerge", "IsSorted", "Heap"}
+	ins := [][]int{{2, 1}, {3, 1, 2}, {1, 1, 0}}
+	var out []runner.Instance
+	for i, a := range kinds {
+		for j := i; j < len(kinds); j++ {
+			b := kinds[j]
+			for x, ia := range ins {
+				for y, ib := range ins {
+					if tier != "thorough" && (x+y)%2 == 1 {
+						continue
+					}
+					out = append(out, runner.Instance{Group: "independent-lists", Name: fmt.Sprintf("independent-lists/%s%v||%s%v", a, ia, b, ib), Bound: bound, Scenario: scenario([]string{a, b}, [][]int{ia, ib})})
+				}
+			}
+		}
+	}
+	if tier == "thorough" {
+		out = append(out, runner.Instance{Group: "independent-lists", Name: "independent-lists/3xSortQuick", Bound: bound - 1, Scenario: scenario([]string{"SortQuick", "SortQuick", "SortQuick"}, [][]int{{2, 1}, {4, 3}, {6, 5}})})
+	}
+	return out, budget
+}
+
 func main() {
-	tier := flag.String("tier", "quick", "quick|thorough")
-	flag.Parse()
-	r := rep.New("C17", *tier, "model_checking")
-	seqpart.Run(r, *tier)
-	os.Exit(r.Finish())
+	runner.Main(runner.Options{Property: "C17", Level: "model_checking", Build: build, RacePoints: true,
+		Rule:   "concurrent half: every schedule (deviation bounded, race-directed preemption) of two goroutines that each sort / test / heap-order a private list; every answer must equal the sequential one",
+		Assume: []string{"model of sync (incl. sync.Pool as a deterministic LIFO free list) in verif/vs (DESIGN §2.2)", "small scope: lists of 2-3 elements, 2 goroutines (3 thorough)"}})
 }
